@@ -559,7 +559,10 @@ class Discharger:
         maxval = radix ** st["max"] - 1
         is_from_bits = recv["f"]["segs"][-1] == "from_bits"
         if is_from_bits:
-            allbits = 0o7777 if "Mode" in src(recv) else None
+            from . import c02
+
+            fty = recv["f"]["segs"][-2] if len(recv["f"]["segs"]) >= 2 else None
+            allbits = c02.flag_set(self.f, fty) if fty else None
             ok = digits_ok and bits is not None and maxval < 2**bits and allbits is not None and maxval <= allbits and st["min"] >= 1
             return ok, "radix-bound", "%d..%d digits of radix %s: maximum value %s must be a subset of the flag set %s for from_bits(..).unwrap()" % (st["min"], st["max"], radix, oct(maxval), oct(allbits) if allbits else "?")
         ok = digits_ok and bits is not None and maxval < 2**bits and st["min"] >= 1
